@@ -308,6 +308,8 @@ pub struct Delivery {
     pub writers_after_drop: Vec<WriterLog>,
     pub protocol_errors: Vec<String>,
     pub edited_object_payload: bool,
+    /// MultiReceiver::nb_objects_error() at the end of the history (0 unless max_objects_error > 0)
+    pub objects_error: usize,
 }
 
 fn map_idx(i: u16, len: usize) -> usize {
@@ -380,9 +382,10 @@ pub fn deliver(ls: &LabeledSession, order: &[usize], edits: &[Edit], rx: &RxSpec
         r.push(p, now);
     }
     let writers = mon.writers();
+    let objects_error = r.mr.nb_objects_error();
     let _ = drop_receiver;
     drop(r);
-    Ok(Delivery { writers, writers_after_drop: mon.writers(), protocol_errors: mon.protocol_errors(), edited_object_payload: edited })
+    Ok(Delivery { writers, writers_after_drop: mon.writers(), protocol_errors: mon.protocol_errors(), edited_object_payload: edited, objects_error })
 }
 
 // ------------------------------------------------------------------------------------------
